@@ -37,6 +37,10 @@ pub struct HostCfg {
     pub src: [u8; 16],
     pub dst: [u8; 16],
     pub channel: u32,
+    /// MACsec SecTag (unmodified payload, short length 0) inserted in front
+    /// of the VLAN tag with this index (== vlans.len(): behind all of them);
+    /// the bool selects a SecTag with SCI. VLAN tags + MACsec <= 3.
+    pub macsec: Option<(usize, bool)>,
     /// IPv4: number of 4-byte option words (0..=10)
     pub v4_opt_words: u8,
     /// IPv6: extension headers in front of the fragment header
@@ -73,10 +77,34 @@ fn ones_complement_sum(data: &[u8]) -> u16 {
     !(sum as u16)
 }
 
-/// Link + VLAN part for a given inner ether type.
+pub const ETHER_MACSEC: u16 = 0x88e5;
+
+/// Link + VLAN (+ MACsec) part for a given inner ether type.
 pub fn encode_link(h: &HostCfg, inner: u16, fill: u8) -> Vec<u8> {
     let mut out = Vec::new();
-    let first_type = h.vlans.first().map(|v| v.0).unwrap_or(inner);
+    // tags in wire order: (ether type announcing the tag, tag kind)
+    #[derive(Clone, Copy)]
+    enum Tag {
+        Vlan(u16),
+        Macsec(bool),
+    }
+    let mut tags: Vec<(u16, Tag)> = Vec::new();
+    if h.link != Link::BareIp {
+        for (i, (tpid, vid)) in h.vlans.iter().enumerate() {
+            if let Some((at, sci)) = h.macsec {
+                if at == i {
+                    tags.push((ETHER_MACSEC, Tag::Macsec(sci)));
+                }
+            }
+            tags.push((*tpid, Tag::Vlan(*vid)));
+        }
+        if let Some((at, sci)) = h.macsec {
+            if at >= h.vlans.len() {
+                tags.push((ETHER_MACSEC, Tag::Macsec(sci)));
+            }
+        }
+    }
+    let first_type = tags.first().map(|t| t.0).unwrap_or(inner);
     match h.link {
         Link::Eth => {
             out.extend_from_slice(&[fill ^ 0x11; 6]);
@@ -92,12 +120,24 @@ pub fn encode_link(h: &HostCfg, inner: u16, fill: u8) -> Vec<u8> {
         }
         Link::BareIp => {}
     }
-    if h.link != Link::BareIp {
-        for (i, (_, vid)) in h.vlans.iter().enumerate() {
-            let next = h.vlans.get(i + 1).map(|v| v.0).unwrap_or(inner);
-            let tci = ((u16::from(fill) & 7) << 13) | (vid & 0x0fff);
-            out.extend_from_slice(&tci.to_be_bytes());
-            out.extend_from_slice(&next.to_be_bytes());
+    for (i, (_, tag)) in tags.iter().enumerate() {
+        let next = tags.get(i + 1).map(|t| t.0).unwrap_or(inner);
+        match tag {
+            Tag::Vlan(vid) => {
+                let tci = ((u16::from(fill) & 7) << 13) | (vid & 0x0fff);
+                out.extend_from_slice(&tci.to_be_bytes());
+                out.extend_from_slice(&next.to_be_bytes());
+            }
+            Tag::Macsec(sci) => {
+                // TCI: V=0, ES=0, SC=sci, SCB=0, E=0, C=0 (unmodified), AN
+                out.push(if *sci { 0x20 } else { 0x00 } | (fill & 3));
+                out.push(0); // short length 0: unknown
+                out.extend_from_slice(&[0, 0, 0, fill]); // packet number
+                if *sci {
+                    out.extend_from_slice(&[fill ^ 0x44; 8]);
+                }
+                out.extend_from_slice(&next.to_be_bytes());
+            }
         }
     }
     out
@@ -105,9 +145,14 @@ pub fn encode_link(h: &HostCfg, inner: u16, fill: u8) -> Vec<u8> {
 
 /// Offset of the IP header inside the frame.
 pub fn ip_offset(h: &HostCfg) -> usize {
+    let macsec = match h.macsec {
+        Some((_, true)) => 16,
+        Some((_, false)) => 8,
+        None => 0,
+    };
     match h.link {
-        Link::Eth => 14 + 4 * h.vlans.len(),
-        Link::Sll => 16 + 4 * h.vlans.len(),
+        Link::Eth => 14 + 4 * h.vlans.len() + macsec,
+        Link::Sll => 16 + 4 * h.vlans.len() + macsec,
         Link::BareIp => 0,
     }
 }
